@@ -62,3 +62,18 @@ func derivedAddr(v ssa.Value) bool {
 	}
 	return false
 }
+
+// closures keep their identity when they travel through a variable cell
+var closureByObj = map[*Term]*Value{}
+
+// AssumeDistinctObjs: the driver's precondition that two pointers refer to
+// different objects: assumed in the path condition (raw term, so that it
+// reaches the solver) and recorded so that the simplifier can use it.
+func AssumeDistinctObjs(st *State, a, b *Term) {
+	oa, ob := LObj(a), LObj(b)
+	if oa == ob {
+		return
+	}
+	st.pc = append(st.pc, App("not", SBool, App("=", SBool, oa, ob)))
+	distinctPairs[[2]*Term{oa, ob}] = true
+}
